@@ -11,7 +11,10 @@ import (
 	"fmt"
 	"os"
 	"sort"
+	"sync"
 	"time"
+
+	"go.brendoncarroll.net/p2p"
 
 	"go.brendoncarroll.net/p2p/p/kademlia"
 	"verifharness/trace"
@@ -378,11 +381,72 @@ func runDist(in *os.File, w *trace.Writer) int {
 	return n
 }
 
+// runHammer calls every Cache and DHTNode method concurrently for a short while.
+func runHammer() {
+	locus := make([]byte, 32)
+	c := kademlia.NewCache[int](locus, 64, 0)
+	var id p2p.PeerID
+	id[0] = 1
+	node := kademlia.NewDHTNode(kademlia.DHTNodeParams{LocalID: id, PeerCacheSize: 256, DataCacheSize: 64})
+	stop := time.Now().Add(400 * time.Millisecond)
+	var wg sync.WaitGroup
+	for g := 0; g < 8; g++ {
+		wg.Add(1)
+		go func(g int) {
+			defer wg.Done()
+			defer func() { recover() }()
+			for i := 0; time.Now().Before(stop); i++ {
+				k := make([]byte, 32)
+				k[0], k[1], k[31] = byte(1<<uint(i%8)), byte(g), byte(i)
+				now := time.Unix(1_000_000+int64(i), 0)
+				switch (i + g) % 8 {
+				case 0:
+					c.Put(k, i, now, now.Add(time.Second))
+				case 1:
+					c.Get(k, now)
+				case 2:
+					c.Count()
+					c.IsFull()
+					c.AcceptingPrefixLen()
+				case 3:
+					c.ForEach(k, func(kademlia.Entry[int]) bool { return true })
+				case 4:
+					c.Delete(k)
+				case 5:
+					c.Expire(nil, now)
+					c.WouldAdd(k, now)
+				case 6:
+					var pid p2p.PeerID
+					copy(pid[:], k)
+					node.AddPeer(pid, []byte("info"))
+					node.HandleFindNode(pid, kademlia.FindNodeReq{Target: pid, Limit: 3})
+					node.ListPeers(4)
+				default:
+					var pid p2p.PeerID
+					copy(pid[:], k)
+					node.HandlePut(pid, kademlia.PutReq{Key: k, Value: []byte("v"), TTLms: 1000})
+					node.HandleGet(pid, kademlia.GetReq{Key: k})
+					node.Count()
+					node.WouldAdd(k)
+					_ = node.String()
+				}
+			}
+		}(g)
+	}
+	wg.Wait()
+	fmt.Println("hammer done")
+}
+
 func main() {
 	in := flag.String("in", "", "behaviours (ndjson)")
 	out := flag.String("out", "", "trace output (ndjson)")
 	dist := flag.Bool("dist", false, "input is a list of distance triples")
+	hammer := flag.Bool("hammer", false, "concurrent use of one Cache and one DHTNode (observer: -race build, C14)")
 	flag.Parse()
+	if *hammer {
+		runHammer()
+		return
+	}
 	f, err := os.Open(*in)
 	if err != nil {
 		fmt.Fprintln(os.Stderr, err)
